@@ -93,6 +93,9 @@ impl Builder {
             prev: None,
         }
     }
+    pub fn next_aux_set(&mut self, n: u32) {
+        self.next_aux = n;
+    }
     pub fn payload(rev: usize, n: u32) -> u64 {
         (rev as u64 + 1) * 1000 + n as u64
     }
@@ -167,8 +170,15 @@ impl Builder {
             self.store.push((off, Content::Stm(objs)));
             entries.insert(c, Entry::InUse { off, gen: 0 });
         }
+        self.finish_revision(spec.form, entries);
+    }
+
+    /// write the cross-reference section (classic or stream) for `entries` and close the revision
+    pub fn finish_revision(&mut self, form: Form, mut entries: BTreeMap<u32, Entry>) {
+        let rev = self.hist.len();
+        let flate = matches!(form, Form::Stream { flate: true, .. });
         let prev = self.prev.map(|p| format!(" /Prev {}", p)).unwrap_or_default();
-        match spec.form {
+        match form {
             Form::Classic => {
                 let ents: Vec<(u32, Entry)> = entries.into_iter().collect();
                 let max = ents.iter().map(|e| e.0 + 1).max().unwrap_or(0);
@@ -276,6 +286,56 @@ pub fn find(h: &[u8], n: &[u8]) -> Option<usize> {
 }
 pub fn rfind(h: &[u8], n: &[u8]) -> Option<usize> {
     h.windows(n.len()).rposition(|w| w == n)
+}
+
+/// A one-page AcroForm document assembled by hand: text fields `names` (merged field/widget
+/// dictionaries 10, 11, ...), AcroForm 5, font 8; with `in_stm` the AcroForm, the fields and the
+/// page live in an object stream (the section is then an xref stream).
+pub fn build_form_base(form: Form, in_stm: bool, names: &[String]) -> Vec<u8> {
+    let mut b = Builder::new(900);
+    let form = if in_stm && form == Form::Classic { Form::Stream { flate: false, w0zero: false } } else { form };
+    let flate = matches!(form, Form::Stream { flate: true, .. });
+    let field_ids: Vec<u32> = (0..names.len() as u32).map(|i| 10 + i).collect();
+    let refs: String = field_ids.iter().map(|n| format!("{} 0 R", n)).collect::<Vec<_>>().join(" ");
+    let mut direct: Vec<(u32, String)> = vec![
+        (1, "<< /Type /Catalog /Pages 2 0 R /AcroForm 5 0 R >>".into()),
+        (2, "<< /Type /Pages /Kids [3 0 R] /Count 1 >>".into()),
+        (8, "<< /Type /Font /Subtype /Type1 /BaseFont /Helvetica >>".into()),
+    ];
+    let mut movable: Vec<(u32, String)> = vec![
+        (3, format!("<< /Type /Page /Parent 2 0 R /MediaBox [0 0 612 792] /Resources << >> /Annots [{}] >>", refs)),
+        (5, format!("<< /Fields [{}] /DA (/Helv 12 Tf 0 g) /DR << /Font << /Helv 8 0 R >> >> >>", refs)),
+    ];
+    for (i, name) in names.iter().enumerate() {
+        let y = 700 - 40 * i as i32;
+        movable.push((10 + i as u32, format!("<< /Type /Annot /Subtype /Widget /FT /Tx /T ({}) /Rect [100 {} 300 {}] /P 3 0 R /DA (/Helv 12 Tf 0 g) >>", name, y, y + 20)));
+    }
+    let mut entries: BTreeMap<u32, Entry> = BTreeMap::new();
+    entries.insert(0, Entry::Free { next: 0, gen: 65535 });
+    if !in_stm {
+        direct.append(&mut movable);
+    }
+    for (n, body) in &direct {
+        let off = b.put_obj(*n, 0, body.as_bytes());
+        entries.insert(*n, Entry::InUse { off, gen: 0 });
+    }
+    if in_stm {
+        let c = 20u32;
+        let mut head = String::new();
+        let mut bodies = String::new();
+        for (i, (n, body)) in movable.iter().enumerate() {
+            head.push_str(&format!("{} {} ", n, bodies.len()));
+            bodies.push_str(body);
+            bodies.push(' ');
+            entries.insert(*n, Entry::Compressed { stm: c as u64, idx: i as u64 });
+        }
+        let data = format!("{}{}", head, bodies);
+        let off = b.stream_obj(c, &format!("/Type /ObjStm /N {} /First {}", movable.len(), head.len()), data.as_bytes(), flate);
+        entries.insert(c, Entry::InUse { off, gen: 0 });
+    }
+    b.next_aux_set(30);
+    b.finish_revision(form, entries);
+    b.buf
 }
 
 pub const CATALOG: &str = "<< /Type /Catalog /Pages 2 0 R >>";
